@@ -59,6 +59,12 @@ fixed("C11", "unlisted:tree-differs-after-round-trip", "3a69894", "the float con
 fixed("C12", "unlisted:optimizer-output-differs-from-reference-rewrite", "c23d8c7", "ConstantOptimizer folded store/del-context tuples such as `() = x` into a Constant", "() = x")
 fixed("C18", "unlisted:string-precision", "5b84adc", "format_string truncated after padding and by bytes (wrong text; panic inside a multi-byte character)", "format('é', '1.1')")
 
+fixed("C17", "unlisted:parse_bytes-differs-from-float()", "c3b3461", "parse_bytes did not strip a vertical tab (u8::is_ascii_whitespace excludes 0x0b) although float() and parse_str do", "b' 1\\x0b'")
+fixed("C17", "unlisted:to_hex-differs", "f564311", "to_hex rendered subnormals as 0x0.<2*fraction>p-1023 instead of float.hex()'s 0x0.<fraction>p-1022, and from_hex did not take it back", "5e-324")
+fixed("C17", "unlisted:format_general-differs", "c150721", "format_general(0, ...) produced exponent form instead of treating precision 0 as 1 like %g", "format_general(0, 1.0)")
+fixed("C17", "unlisted:from_hex-rejects", "adf4382", "from_hex rejected surrounding whitespace that float.fromhex() ignores", "' 0x1p0 '")
+known("C17", "from_hex-rejects-values-needing-rounding", "from_hex only accepts texts whose exact value is a double (hexf-parse); float.fromhex() rounds texts with more than 53 significant bits or subnormal / underflowing results", "0x1.00000000000008p0")
+
 # further per-property tables are appended by findings_*.py fragments (one per check family)
 if __name__ == "__main__":
     import os
